@@ -10,6 +10,10 @@ use serde_json::json;
 pub fn regress_cases(root: &str, prop: &str) -> Vec<(String, Case)> {
     let dir = format!("{}/replays/regress", root);
     let mut out = vec![];
+    if std::env::var("GV_SKIP_REGRESS").is_ok() {
+        // sensitivity experiments only: see whether the search itself (not the corpus) finds a change
+        return out;
+    }
     let mut names: Vec<_> = match std::fs::read_dir(&dir) {
         Ok(rd) => rd.filter_map(|e| e.ok()).map(|e| e.path()).collect(),
         Err(_) => vec![],
